@@ -2589,6 +2589,18 @@ func ruleWalkErrParam(id string) func(*Checker) {
 					first = true
 				}
 			}
+			// on the error edge the FileInfo may be nil (a failed Lstat of a child): nothing is asked of it there
+			infoP := ps[1]
+			for _, b := range fn.Blocks {
+				if len(set) == 0 || !guarded(b, set) {
+					continue
+				}
+				for _, in := range b.Instrs {
+					if ci, ok := in.(ssa.CallInstruction); ok && ci.Common().IsInvoke() && canon(ci.Common().Value) == ssa.Value(infoP) {
+						c.fail(id, p.FuncName(fn), "FileInfo used on the error edge", p.Pos(in.Pos()), "the walk callback calls "+ci.Common().Method.Name()+" on its FileInfo where its error parameter is not nil: filepath.Walk passes a nil FileInfo when the Lstat of an entry failed (a path too long, a file that vanished), and the callback panics where it should hand the error on")
+					}
+				}
+			}
 			c.check(okT && first, id, p.FuncName(fn), "walk error looked at first", p.Pos(fn.Pos()), "`if err != nil { return … }` on the callback's own parameter, in the entry block", "the walk callback does not look at the error filepath.Walk hands it before going on (the test is gone, or the parameter is overwritten first): an unreadable directory is packed as if empty, or the nil FileInfo is dereferenced")
 		}
 	}
